@@ -126,7 +126,26 @@ func genC17(t *rapid.T) C17Case {
 	if rapid.Bool().Draw(t, "overlap") {
 		c.Op = "overlap"
 		a, b := genListPair(t, strs)
-		if !strs && rapid.IntRange(0, 4).Draw(t, "sortedpair") == 0 {
+		if !strs && rapid.IntRange(0, 9).Draw(t, "smallids") == 0 {
+			// small non-negative "ids" (0..63) on one side, ids of any size on the other - some of them equal to a
+			// small id plus a multiple of 64 (no common element unless one is planted), on both sides of the switch
+			ls := rapid.SampledFrom([]int{1, 3, 20, 64}).Draw(t, "si_ls")
+			ll := rapid.SampledFrom([]int{5, 40, 97, 99, 120, 200}).Draw(t, "si_ll")
+			small, large := make([]int64, ls), make([]int64, ll)
+			for i := range small {
+				small[i] = int64((i*7 + 1) % 64)
+			}
+			for i := range large {
+				large[i] = small[i%ls] + 64*int64(1+i%5)
+			}
+			if rapid.IntRange(0, 2).Draw(t, "si_common") == 0 {
+				large[rapid.IntRange(0, ll-1).Draw(t, "si_at")] = small[rapid.IntRange(0, ls-1).Draw(t, "si_which")]
+			}
+			a, b = small, large
+			if rapid.Bool().Draw(t, "si_swap") {
+				a, b = b, a
+			}
+		} else if !strs && rapid.IntRange(0, 4).Draw(t, "sortedpair") == 0 {
 			// two SORTED integer lists (ascending; sometimes both descending) that touch, interleave or
 			// miss each other: ranges sharing exactly one end element, adjacent ranges, evens against odds,
 			// a one-element list holding the other's largest / smallest element
@@ -256,7 +275,31 @@ func genC17(t *rapid.T) C17Case {
 				}
 			}
 		}
-		switch pickW(t, "special", 6, 2, 1, 1, 1) {
+		switch pickW(t, "special", 6, 2, 1, 1, 1, 1) {
+		case 5: // pre-built set AND a probe of the other element type (or no scalar at all): an error, not false
+			zero := rapid.Bool().Draw(t, "setzero")
+			switch x := l.(type) {
+			case []int64:
+				s := map[int64]struct{}{}
+				for _, e := range x {
+					s[e] = struct{}{}
+				}
+				if zero {
+					s[0] = struct{}{}
+				}
+				l = s
+				probe = rapid.SampledFrom([]interface{}{"e1", "", "0", true, false}).Draw(t, "setprobe_i")
+			case []string:
+				s := map[string]struct{}{}
+				for _, e := range x {
+					s[e] = struct{}{}
+				}
+				if zero {
+					s[""] = struct{}{}
+				}
+				l = s
+				probe = rapid.SampledFrom([]interface{}{int64(1), int64(0), true, false}).Draw(t, "setprobe_s")
+			}
 		case 1: // pre-built set
 			switch x := l.(type) {
 			case []int64:
